@@ -228,7 +228,20 @@ CHECKS["C15"] = {
     "technique": "Coq proof that the options are filters in the reader models and that the name functions split at the last dot; differential correspondence over all option sets and file-name shapes",
 }
 
-NOT_APPLICABLE = [
-    {"property_id": p, "reason": PENDING}
-    for p in ["C03"]
-]
+CHECKS["C03"] = {
+    "text": "The PDB writer model (Model/PdbWrite.v: the field function that keeps the last columns of a value, every record emitter, the exact "
+            "fixed-point formatting of binary64 values) and the PDB reader model (C01) are compared with the crate on every generated structure "
+            "(bytes written at the three levels, outcome of the re-read). The round-trip specification (Spec/PdbRoundTrip.v) states, independently "
+            "of the writer's formatting, when a re-read structure is the original with every number rounded to the precision of its columns "
+            "(coordinates 3, occupancy and B 2, tensors 4, cell 3 / 2, matrices 6 / 5 decimals) and identifier, remarks, space group, modifications "
+            "and database references unchanged; it is evaluated on every (original, re-read) pair; a second write must reproduce the file byte for "
+            "byte; and an independent fixed-column reading of every written file (columns of the format description, written in Coq) must give "
+            "the atoms of the structure. Proved for the writer model's field function: a value that fits its columns is written unchanged and "
+            "padded to the exact width, an empty value is blank. Structures numbered through the serial-number limits are round-tripped at the loose level.",
+    "design_ref": "DESIGN.md section 6 C03",
+    "note": "read_pdb (save_pdb s) = round s is not proved as a theorem; both models are tied to the code by correspondence and the specification "
+            "is evaluated per structure. The clause 'values that fit the documented ranges pass validation' is decided by C18. Trusted: Coq kernel, extraction, harness generator.",
+    "technique": "Coq writer and reader models with an executable round-trip specification and an independent fixed-column reader; field-function lemmas proved; differential correspondence with the crate",
+}
+
+NOT_APPLICABLE = []
